@@ -601,5 +601,11 @@ def run(tier='quick'):
                           'holds for one insertion only, so a single one at the start pads the minutes and not the seconds)',
                    floor=2)
     padded_fields(prog, chk, W12)
+    W13 = chk.rule('W13', 'the entry chain of a list stays one chain: the function that inserts a row into PlaylistEntity makes the previous tail point at it: the id written into the old '
+                        'tail is last_insert_rowid() read after the INSERT (not a predicted MAX(id) + 1, wrong once the '
+                        'highest row of the AUTOINCREMENT table was deleted), and the old tail is found as the row of the '
+                        'list whose next-pointer is the sentinel 0 (not by its id)', floor=1)
+    from . import extra
+    extra.new_tail_linked(prog, cg, eff, chk, W13)
     return chk.finish('statement sites of the 1.x crate operations with resolved binds (roles), field model of '
                       'the track path per schema range, parsed triggers of every 2.x DDL, value flow of add_track')
